@@ -198,3 +198,66 @@ Proof. vm_compute. reflexivity. Qed.
 Example C02_exec_rejects_smaller_component :
   exec_ok [[]; []; [1]] [mkR 0 [] None] = false.
 Proof. vm_compute. reflexivity. Qed.
+
+(* ---------- large plans (generator family [scale] of the plan stream) ----------
+   [plan_ok] keeps association lists and ancestor sets: plans of 10^4 .. 10^6 actions are out of its reach.  They are
+   judged by [fast_c02] (coq/theories/Plan/FastPlan.v: branch table = binary trie, commits = binary numbers [N]; an
+   action is a [faction], [to_action] = the action of Syntax.v it stands for; [par c] = parents of commit c), which
+   tests, in the state of the SAME abstract executor before every action: a commit c @ b finds b live and awake, and the
+   commit b analysed last is a parent of c - or b has analysed nothing and c has no parents; a merge joins pairwise
+   distinct live branches that all analysed the same commit last.  These are consequences of C02 (clauses c02_replay and
+   c02_merges), not all of it: a plan that [fast_c02] rejects violates C02 (theorem below; so a rejection is a property
+   failure), an accepted one has only passed the tests above - the ancestry clauses (exactly Anc(parent), one replay
+   per non-redundant parent, retained component) stay with [plan_ok] on graphs of up to a few hundred commits. *)
+From Coq Require Import NArith.
+From Herc Require Import Plan.FastPlan Plan.FastPlanSound.
+
+Theorem C02_fast_necessary : forall (g : list (list nat)) (par : N -> list N) (p : list faction),
+  (forall c, map N.to_nat (par c) = parents g (N.to_nat c)) ->
+  C02_spec g (map to_action p) -> fast_c02 par p = true.
+Proof. exact fast_c02_necessary. Qed.
+Print Assumptions C02_fast_necessary.
+
+(* a rejected plan violates C02 *)
+Theorem C02_fast_reject_is_violation : forall (g : list (list nat)) (par : N -> list N) (p : list faction),
+  (forall c, map N.to_nat (par c) = parents g (N.to_nat c)) ->
+  fast_c02 par p = false -> ~ C02_spec g (map to_action p).
+Proof.
+  intros g par p Hg F S. rewrite (fast_c02_necessary g par p Hg S) in F. discriminate.
+Qed.
+Print Assumptions C02_fast_reject_is_violation.
+
+(* whatever the full validator accepts, the fast one accepts (the driver runs both on the small cases) *)
+Theorem C02_fast_accepts_what_plan_ok_accepts : forall (g : list (list nat)) (par : N -> list N) (p : list faction),
+  (forall c, map N.to_nat (par c) = parents g (N.to_nat c)) ->
+  plan_ok g (map to_action p) = true -> fast_c02 par p = true.
+Proof. intros g par p Hg H. apply (fast_c02_necessary g par p Hg). apply checker_sound. exact H. Qed.
+Print Assumptions C02_fast_accepts_what_plan_ok_accepts.
+
+(* non-vacuity: the diamond plan is accepted; a replay on a disposed branch, a replay on a branch whose last
+   commit is not a parent, a replay of a parentless commit on a used branch, and a merge of branches that
+   analysed different commits are rejected *)
+Definition fdiamond_par (c : N) : list N :=
+  match c with 1%N => [0%N] | 2%N => [0%N] | 3%N => [1%N; 2%N] | _ => [] end.
+Definition fC (c : N) (b : Z) : faction := mkFA KCommit (Some c) [b].
+Example C02_fast_accepts_diamond :
+  fast_c02 fdiamond_par
+    [mkFA KEmerge None [1%Z]; fC 0 1; mkFA KFork None [1%Z; 2%Z]; fC 1 1; fC 2 2; fC 3 1; fC 3 2;
+     mkFA KMerge None [1%Z; 2%Z]; mkFA KDelete None [2%Z]] = true.
+Proof. vm_compute. reflexivity. Qed.
+Example C02_fast_rejects_replay_on_disposed_branch :
+  fast_c02 fdiamond_par
+    [mkFA KEmerge None [1%Z]; fC 0 1; mkFA KFork None [1%Z; 2%Z]; mkFA KDelete None [2%Z]; fC 1 1; fC 2 2] = false.
+Proof. vm_compute. reflexivity. Qed.
+Example C02_fast_rejects_replay_after_a_non_parent :
+  fast_c02 fdiamond_par
+    [mkFA KEmerge None [1%Z]; fC 0 1; fC 1 1; fC 2 1] = false.
+Proof. vm_compute. reflexivity. Qed.
+Example C02_fast_rejects_root_on_used_branch :
+  fast_c02 (fun c => match c with 2%N => [0%N; 1%N] | _ => [] end)
+    [mkFA KEmerge None [1%Z]; fC 0 1; fC 1 1] = false.
+Proof. vm_compute. reflexivity. Qed.
+Example C02_fast_rejects_merge_of_different_commits :
+  fast_c02 fdiamond_par
+    [mkFA KEmerge None [1%Z]; fC 0 1; mkFA KFork None [1%Z; 2%Z]; fC 1 1; fC 2 2; mkFA KMerge None [1%Z; 2%Z]] = false.
+Proof. vm_compute. reflexivity. Qed.
